@@ -20,3 +20,5 @@ VARIANTS = [
       rule='C11-JOINREPR', key='as_join_repr'),
     M('C11', 'refactor-header-dict-order', E(GT, "                'COMMAND': repr(self.command),\n                'CWD': repr(self.cwd),", "                'CWD': repr(self.cwd),\n                'COMMAND': repr(self.command),"), kind='refactor'),
 ]
+
+VARIANTS.append(M('C11', 'revert-fix-ip-attribute', E(GT, "        self.ip = self.ip_address  # looked up by name with the other specifics\n", ""), rule='C11-ATTRS', key='::ip'))
